@@ -1,0 +1,80 @@
+//go:build verif
+
+package mempool
+
+// Add-only accessors for the verification harness (/verif, properties C21-C23).
+// Compiled only with -tags verif; no behaviour of the package changes.
+
+import (
+	"github.com/33cn/chain33/client"
+	"github.com/33cn/chain33/queue"
+	"github.com/33cn/chain33/types"
+)
+
+// VerifSetClient binds a queue client (configuration lookups, api) without
+// starting the module's goroutines.
+func (mem *Mempool) VerifSetClient(c queue.Client) error {
+	mem.client = c
+	api, err := client.New(c, nil)
+	if err != nil {
+		return err
+	}
+	mem.setAPI(api)
+	return nil
+}
+
+// VerifSetHeader sets the pool's view of the chain tip.
+func (mem *Mempool) VerifSetHeader(h *types.Header) { mem.setHeader(h) }
+
+// VerifTotalFee returns txCache.TotalFee().
+func (mem *Mempool) VerifTotalFee() int64 {
+	mem.proxyMtx.Lock()
+	defer mem.proxyMtx.Unlock()
+	return mem.cache.TotalFee()
+}
+
+// VerifTxListByHash is getTxListByHash (full or short hashes).
+func (mem *Mempool) VerifTxListByHash(req *types.ReqTxHashList) *types.ReplyTxList {
+	return mem.getTxListByHash(req)
+}
+
+// VerifRemoveExpired is the periodic expiry sweep (removeExpired).
+func (mem *Mempool) VerifRemoveExpired() { mem.removeExpired() }
+
+// VerifEventAddBlock runs the EventAddBlock handler on a block.
+func (mem *Mempool) VerifEventAddBlock(b *types.Block) {
+	mem.eventAddBlock(&queue.Message{Data: &types.BlockDetail{Block: b}})
+}
+
+// VerifDelBlock is the tail of the EventDelBlock handler: the header is set
+// to the new tip (the handler obtains it from the blockchain module) and the
+// block's transactions are re-added.
+func (mem *Mempool) VerifDelBlock(newTip *types.Header, b *types.Block) {
+	mem.setHeader(newTip)
+	mem.delBlock(b)
+}
+
+// VerifWalk walks the queue in order.
+func (mem *Mempool) VerifWalk(cb func(tx *types.Transaction, enter int64)) {
+	mem.proxyMtx.Lock()
+	defer mem.proxyMtx.Unlock()
+	mem.cache.Walk(0, func(it *Item) bool {
+		cb(it.Value, it.EnterTime)
+		return true
+	})
+}
+
+// VerifExist is txCache.Exist.
+func (mem *Mempool) VerifExist(hash []byte) bool {
+	mem.proxyMtx.Lock()
+	defer mem.proxyMtx.Unlock()
+	return mem.cache.Exist(string(hash))
+}
+
+// VerifSetExpiredInterval sets the pool-age expiry interval (package variable
+// mempoolExpiredInterval, 600 s by default) so that age expiry can be reached
+// within the +-300 s window of types.SetTimeDelta.
+func VerifSetExpiredInterval(sec int64) { mempoolExpiredInterval = sec }
+
+// VerifSetClientNil detaches the (shared) queue client so that Close does not close it.
+func (mem *Mempool) VerifSetClientNil() { mem.client = nil }
